@@ -3,9 +3,9 @@ package checks
 import (
 	"verif/harness/internal/c05"
 	"verif/harness/internal/c09"
-	"verif/harness/internal/c17"
 	"verif/harness/internal/c11"
 	"verif/harness/internal/c12"
+	"verif/harness/internal/c17"
 	"verif/harness/internal/c18"
 	"verif/harness/internal/c19"
 	"verif/harness/internal/c20"
